@@ -15,6 +15,7 @@ Specification: notes/SRCTIE.md section 8 (trusted).  In short:
 * the result is what `list(<generator>)` / the call observes: `Except PyRtC09.Err <result>`.
 """
 import ast
+import builtins
 import importlib
 import inspect
 import os
@@ -29,6 +30,12 @@ KIND_FACTS = {
     'callable': {'callable': True, 'iterable': False, 'types': set(), 'none': False},
     'none': {'callable': False, 'iterable': False, 'types': set(), 'none': True},
     'value': {'callable': False, 'iterable': False, 'types': set(), 'none': False},   # a non-iterable, non-callable item
+}
+KIND_SAMPLES = {
+    'list': [[], [1, 2], [None]],
+    'callable': [len, (lambda x: x), bool],
+    'none': [None],
+    'value': [object(), 3],
 }
 KNOWN_TYPES = {'list', 'str', 'bytes', 'tuple', 'dict', 'set', 'frozenset'}
 
@@ -47,6 +54,8 @@ def lean_ty(t):
     t = t.strip()
     if t.startswith('Set ') or t.startswith('Iter '):
         return 'List ' + t.split(' ', 1)[1]
+    if t.startswith('Gen '):
+        return 'Except %s.Err (List %s)' % (RT, paren(lean_ty(t.split(' ', 1)[1])))
     if t.startswith('Dict '):
         k, v = t[5:].split('|')
         return 'List (%s × %s)' % (k.strip(), lean_ty(v))
@@ -60,7 +69,7 @@ def lean_ty(t):
 
 def cls_of(t):
     t = t.strip()
-    for p in ('Set', 'Iter', 'Dict', 'Fn', 'KwFill', 'List', 'Option'):
+    for p in ('Set', 'Iter', 'Dict', 'Fn', 'KwFill', 'List', 'Option', 'Gen'):
         if t.startswith(p + ' '):
             return p
     if t in ('Int', 'Bool', 'Msg'):
@@ -86,8 +95,8 @@ class Path:
 
 
 class FnTr:
-    def __init__(self, fdef, spec, tree, by_py):
-        self.f, self.spec, self.tree, self.by_py = fdef, spec, tree, by_py
+    def __init__(self, fdef, spec, tree, by_py, mod=None):
+        self.f, self.spec, self.tree, self.by_py, self.mod = fdef, spec, tree, by_py, mod
         self.name = spec['lean_name']
         self.gen = spec['kind'] == 'generator'
         self.decl = dict(spec.get('ops', {}))
@@ -96,6 +105,7 @@ class FnTr:
         self.loops = {}          # id(loop node) -> (def name, loop vars)
         self.defs = []           # texts of the loop definitions
         self.has_while = any(isinstance(n, ast.While) for n in ast.walk(fdef))
+        self.needs_fuel = False
         self.tp = spec.get('tparams', [])
         self.binder = ''
         if self.tp:
@@ -136,18 +146,21 @@ class FnTr:
             fn = e.func.id
             if fn in p.scope or fn in self.decl:
                 return None
-            if fn in ('callable', 'is_iterable', 'is_scalar') and len(e.args) == 1 and isinstance(e.args[0], ast.Name) \
-                    and e.args[0].id in p.kinds:
-                facts = KIND_FACTS[p.kinds[e.args[0].id]]
-                if fn == 'callable':
-                    return facts['callable']
-                if fn == 'is_iterable':
-                    return facts['iterable']
-                return (not facts['iterable']) or bool(facts['types'] & {'str', 'bytes'})
+            # the kind tests are EVALUATED on sample objects of the declared kind: the builtins, and the predicates
+            # of the module under test (`is_iterable`, `is_scalar`, `is_collection` as they are in THIS source)
+            if fn in ('callable', 'is_iterable', 'is_scalar', 'is_collection') and len(e.args) == 1 \
+                    and isinstance(e.args[0], ast.Name) and e.args[0].id in p.kinds:
+                f = callable if fn == 'callable' else getattr(self.mod, fn, None)
+                if f is None:
+                    return None
+                vals = {bool(f(x)) for x in KIND_SAMPLES[p.kinds[e.args[0].id]]}
+                return vals.pop() if len(vals) == 1 else None
             if fn == 'isinstance' and len(e.args) == 2 and isinstance(e.args[0], ast.Name) and e.args[0].id in p.kinds:
                 ts = e.args[1].elts if isinstance(e.args[1], ast.Tuple) else [e.args[1]]
-                if all(isinstance(t, ast.Name) and t.id in KNOWN_TYPES for t in ts):
-                    return bool(KIND_FACTS[p.kinds[e.args[0].id]]['types'] & {t.id for t in ts})
+                if all(isinstance(t, ast.Name) and t.id in KNOWN_TYPES and not hasattr(self.mod, t.id) for t in ts):
+                    tt = tuple(getattr(builtins, t.id) for t in ts)
+                    vals = {isinstance(x, tt) for x in KIND_SAMPLES[p.kinds[e.args[0].id]]}
+                    return vals.pop() if len(vals) == 1 else None
         return None
 
     def simplify(self, e, p):
@@ -372,6 +385,14 @@ class FnTr:
                 return '.ok []'
             if s.value is None:
                 raise Unsupported(s, 'bare return in a function')
+            sv = s.value
+            if isinstance(sv, ast.Call) and isinstance(sv.func, ast.Name) and sv.func.id == 'list' \
+                    and 'list' not in p.scope and len(sv.args) == 1 and not sv.keywords \
+                    and self.gen_term(sv.args[0], p) is not None:
+                term, r = self.gen_term(sv.args[0], p)       # `return list(<generator>)`: what the generator observes
+                if lean_ty(self.R) not in ('List ' + lean_ty(r), 'List ' + paren(lean_ty(r))):
+                    raise Unsupported(s, 'returns a list of %s, declared %s' % (r, self.R))
+                return term
             if isinstance(s.value, ast.Tuple):
                 parts = [self.expr(x, p) for x in s.value.elts]
                 code, t = '(%s)' % ', '.join(c for c, _ in parts), ' × '.join(paren(lean_ty(t)) for _, t in parts)
@@ -482,37 +503,41 @@ class FnTr:
                     b = self.let(it, '%s.isliceRest %s %s' % (RT, cit, cn), tit, q, s)
                     return 'if %s < 0 then .error .valueError else\n%s%s%s' % (cn, a, b, self.block(rest, q, loop))
             raise Unsupported(s, 'list(...) of something else than itertools.islice(<iterator>, <int>)')
-        # X = <translated helper>(args)
+        # X = <translated generator helper>(args): a suspended generator (nothing runs until it is consumed)
+        g = self.gen_term(v, p) if isinstance(v, ast.Call) else None
+        if g is not None:
+            d = self.ty(x, p, s)
+            if cls_of(d) != 'Gen' or lean_ty(d.split(' ', 1)[1]) != lean_ty(g[1]):
+                raise Unsupported(s, '%s is declared %s, assigned a generator of %s' % (x, d, g[1]))
+            p.kinds.pop(x, None)
+            p.bind(x)
+            return 'let %s : %s := %s\n' % (x, lean_ty(d), g[0]) + self.block(rest, p, loop)
+        # X = list(<generator>)
+        if isinstance(v, ast.Call) and isinstance(v.func, ast.Name) and v.func.id == 'list' and 'list' not in p.scope \
+                and len(v.args) == 1 and not v.keywords and self.gen_term(v.args[0], p) is not None:
+            term, r = self.gen_term(v.args[0], p)
+            self.consume(v.args[0], p)
+            d = self.ty(x, p, s)
+            if lean_ty(d) != 'List ' + paren(lean_ty(r)) and lean_ty(d) != 'List ' + lean_ty(r):
+                raise Unsupported(s, '%s is declared %s, assigned a list of %s' % (x, d, r))
+            p.kinds.pop(x, None)
+            p.bind(x)
+            return '(match %s with\n| .error e => .error e\n| .ok %s =>\n%s)' % (term, x, ind(self.block(rest, p, loop)))
+        # X = <translated helper function>(args)
         if isinstance(v, ast.Call) and isinstance(v.func, ast.Name) and v.func.id in self.spec.get('helpers', {}) \
-                and v.func.id not in p.scope and not v.keywords:
+                and v.func.id not in p.scope:
             h = self.by_py.get(self.spec['helpers'][v.func.id])
             if h is None:
                 raise Unsupported(s, 'helper %s was not translated' % v.func.id)
-            hp = [(n, t) for n, t in h['params'].items() if h.get('kinds', {}).get(n) != 'none']
-            if len(v.args) > len(hp):
-                raise Unsupported(s, 'too many arguments for %s' % v.func.id)
-            args = []
-            for (n, t), a in zip(hp, v.args):
-                if cls_of(t) == 'Msg':
-                    continue
-                ca, ta = self.expr(a, p, t)
-                if lean_ty(ta) != lean_ty(t):
-                    raise Unsupported(s, 'argument %s of %s is a %s' % (n, v.func.id, ta))
-                args.append(ca)
-            for n, t in hp[len(v.args):]:
-                dflt = h.get('defaults', {}).get(n)
-                if dflt is None:
-                    raise Unsupported(s, 'missing argument %s of %s' % (n, v.func.id))
-                args.append(dflt)
-            if h.get('fuel'):
-                raise Unsupported(s, 'helper with a while loop')
+            if h['kind'] != 'function':
+                raise Unsupported(s, 'generator helper used as a value')
+            term = self.helper_call(h, v, p)
             p.kinds.pop(x, None)
             d = self.ty(x, p, s)
             if lean_ty(d) != lean_ty(h['result']):
                 raise Unsupported(s, '%s is declared %s, the helper returns %s' % (x, d, h['result']))
             p.bind(x)
-            return '(match %s %s with\n| .error e => .error e\n| .ok %s =>\n%s)' % (
-                h['lean_name'], ' '.join(args), x, ind(self.block(rest, p, loop)))
+            return '(match %s with\n| .error e => .error e\n| .ok %s =>\n%s)' % (term, x, ind(self.block(rest, p, loop)))
         if isinstance(v, ast.Name) and v.id in p.kinds:
             k = p.kinds[v.id]
         elif isinstance(v, ast.Constant) and v.value is None:
@@ -528,6 +553,75 @@ class FnTr:
         else:
             p.kinds[x] = k
         return self.let(x, code, t, p, s) + self.block(rest, p, loop)
+
+    def helper_call(self, h, call, p):
+        """the Lean application of a translated helper to the arguments of `call` (positional, plus `**kw` for a
+        declared keyword dict); the declared kinds of the helper's parameters must be those of the arguments"""
+        name = call.func.id
+        kws = list(call.keywords)
+        if any(k.arg is not None for k in kws) or len(kws) > 1:
+            raise Unsupported(call, 'keyword arguments in a call of %s' % name)
+        hk = h.get('kinds', {})
+        hp = list(h['params'].items())
+        kwp = [(n, t) for n, t in hp if cls_of(t) == 'KwFill']
+        pos = [(n, t) for n, t in hp if cls_of(t) != 'KwFill']
+        if len(call.args) > len(pos):
+            raise Unsupported(call, 'too many arguments for %s' % name)
+        args = []
+        for o in h.get('ops', {}):
+            if self.spec.get('ops', {}).get(o) != h['ops'][o]:
+                raise Unsupported(call, 'the declared operation %s of %s is not declared here' % (o, name))
+            args.append(o)
+        for (n, t), a in zip(pos, call.args):
+            ak = p.kinds.get(a.id) if isinstance(a, ast.Name) else ('none' if isinstance(a, ast.Constant)
+                                                                   and a.value is None else None)
+            if hk.get(n) is not None and hk[n] != 'list' and ak != hk[n]:
+                raise Unsupported(call, 'argument %s of %s must be of kind %s' % (n, name, hk[n]))
+            if hk.get(n) == 'list' and not (isinstance(a, ast.Name) and (ak == 'list' or (
+                    a.id in p.scope and cls_of(self.ty(a.id, p, a)) == 'List'))):
+                raise Unsupported(call, 'argument %s of %s must be a list' % (n, name))
+            if hk.get(n) == 'none' or cls_of(t) == 'Msg':
+                continue
+            ca, ta = self.expr(a, p, t)
+            if lean_ty(ta) != lean_ty(t):
+                raise Unsupported(call, 'argument %s of %s is a %s' % (n, name, ta))
+            args.append(ca if ' ' not in ca or ca.startswith('(') else '(%s)' % ca)
+        for n, t in pos[len(call.args):]:
+            if hk.get(n) == 'none' and h.get('py_defaults', {}).get(n, 'missing') is None:
+                continue                                # the Python default of the helper's parameter is None
+            dflt = h.get('defaults', {}).get(n)
+            if dflt is None:
+                raise Unsupported(call, 'missing argument %s of %s' % (n, name))
+            args.append(dflt)
+        if kwp:
+            if not kws or not isinstance(kws[0].value, ast.Name):
+                raise Unsupported(call, '%s needs the keyword dict passed as **kw' % name)
+            ca, ta = self.expr(kws[0].value, p)
+            if lean_ty(ta) != lean_ty(kwp[0][1]):
+                raise Unsupported(call, '**%s is a %s' % (ca, ta))
+            args.append(ca)
+        elif kws:
+            raise Unsupported(call, '%s takes no keyword dict' % name)
+        if h.get('fuel'):
+            self.needs_fuel = True
+            args.append('fuel')
+        return '%s %s' % (h['lean_name'], ' '.join(args))
+
+    def gen_term(self, e, p):
+        """a generator object: a call of a translated generator helper or a name declared `Gen R` -> (term, R) / None"""
+        if isinstance(e, ast.Name) and e.id in p.scope and cls_of(self.ty(e.id, p, e)) == 'Gen':
+            return e.id, self.ty(e.id, p, e).split(' ', 1)[1]
+        if isinstance(e, ast.Call) and isinstance(e.func, ast.Name) and e.func.id in self.spec.get('helpers', {}) \
+                and e.func.id not in p.scope:
+            h = self.by_py.get(self.spec['helpers'][e.func.id])
+            if h is not None and h['kind'] == 'generator':
+                return '(%s)' % self.helper_call(h, e, p), h['result']
+        return None
+
+    def consume(self, e, p):
+        """a generator object can be consumed once: afterwards its name is out of scope"""
+        if isinstance(e, ast.Name) and e.id in p.scope:
+            p.scope.remove(e.id)
 
     def nested_def(self, s, p):
         """`def g(x): return <expr>` -> `let g := fun x => <expr>`; the variables it reads must not be re-assigned later"""
@@ -661,7 +755,7 @@ class FnTr:
         # a parameter of kind 'none' is not bound at run time: every use must be decided by the kind
         body = self.block(list(self.f.body), p, None)
         sig = ' '.join('(%s : %s)' % (n, lean_ty(t)) for n, t in lean_params)
-        if self.has_while:
+        if self.has_while or self.needs_fuel:
             sig += ' (fuel : Nat)'
         doc = '/-- `%s` (lines %d-%d)%s -/' % (
             self.spec['qualname'], self.f.lineno, self.f.end_lineno,
@@ -679,7 +773,7 @@ def find_function(tree, qualname):
     return hits[0]
 
 
-def translate_source(src, specs, module_name, rel):
+def translate_source(src, specs, module_name, rel, mod=None):
     tree = ast.parse(src)
     short = module_name.split('.')[-1]
     parts, infos, head, by_py = [], [], [], {}
@@ -693,9 +787,13 @@ def translate_source(src, specs, module_name, rel):
         try:
             fdef = find_function(tree, spec['qualname'])
             info['lines'] = '%d-%d' % (fdef.lineno, fdef.end_lineno)
-            tr = FnTr(fdef, spec, tree, by_py)
+            tr = FnTr(fdef, spec, tree, by_py, mod)
             text = tr.emit()
-            spec['fuel'] = tr.has_while
+            spec['fuel'] = tr.has_while or tr.needs_fuel
+            _a = fdef.args
+            _n = [x.arg for x in _a.args]
+            spec['py_defaults'] = {n: d.value for n, d in zip(_n[len(_n) - len(_a.defaults):], _a.defaults)
+                                   if isinstance(d, ast.Constant)}
             by_py[spec['lean_name']] = spec
         except (Unsupported, RecursionError) as e:
             info['error'] = str(e) or type(e).__name__
@@ -718,7 +816,7 @@ def translate_module(module_name, specs, repo):
         raise RuntimeError('%s imported from %s, not from %s' % (module_name, path, repo))
     with open(path) as fh:
         src = fh.read()
-    return translate_source(src, specs, module_name, os.path.relpath(path, os.path.abspath(repo)))
+    return translate_source(src, specs, module_name, os.path.relpath(path, os.path.abspath(repo)), mod)
 
 
 def selftest(pids, quick=False, seed=0, verbose=True):
